@@ -416,6 +416,7 @@ func main() {
 	R := r.R
 	codes := map[string]string{
 		"store":   "600a600c600039600a6000f3" + "60003560005500", // deploys: SSTORE(0, calldata[0])
+		"logger":  "6005600c60003960056000f3" + "60006000a0", // deploys: LOG0(0,0) on every call
 		"revert":  "60006000fd",
 		"invalid": "fe",
 		"empty":   "",
@@ -482,7 +483,7 @@ func main() {
 						bump = false // decided by the model, not by the generator: resynchronised after exec
 					}
 				case c < 36: // contract creation
-					nm := []string{"store", "store", "revert", "invalid", "empty"}[R.Intn(5)]
+					nm := []string{"store", "logger", "logger", "revert", "invalid", "empty"}[R.Intn(6)]
 					op = fmt.Sprintf("tx kind=create from=%d nonce=%d value=0 gas=%d price=0 data=%s", from, nonce, []int{200000, 200000, 60000, 30000}[R.Intn(4)], codes[nm])
 					if bump {
 						created = append(created, fmt.Sprintf("c%d:%d", from, nonce))
